@@ -44,15 +44,16 @@ pub fn run<A: Cx>(d: &mut Drv<A>, scale: usize) {
                 }
             }
             25..=36 if grow => {
-                let src = d.rand_src(other);
+                // the argument: a window of another register, or of a static literal / a k-mer's own slice
+                let src = if d.rng.chance(1, 6) { d.foreign_src().0 } else { d.rand_src(other) };
                 d.emit(json!({"op": "append", "dst": dst, "src": src}));
             }
             37..=48 if grow => {
-                let src = d.rand_src(other);
+                let src = if d.rng.chance(1, 6) { d.foreign_src().0 } else { d.rand_src(other) };
                 d.emit(json!({"op": "prepend", "dst": dst, "src": src}));
             }
             49..=62 if grow => {
-                let src = d.rand_src(other);
+                let src = if d.rng.chance(1, 6) { d.foreign_src().0 } else { d.rand_src(other) };
                 let i = d.rng.range(0, n);
                 d.emit(json!({"op": "insert", "dst": dst, "i": i, "src": src}));
             }
